@@ -345,6 +345,10 @@ func c01Dims(r *rand.Rand, s string) string {
 	case x < 14:
 		s += fmt.Sprintf(" conc=%d", 2+r.Intn(7))
 	}
+	// the section decoded into a schedule FACTORY (the engine's `rps` option) that is called 2..4 times
+	if r.Intn(25) == 0 {
+		s += fmt.Sprintf(" fac=%d", 2+r.Intn(3))
+	}
 	// a rate of 0 may simply be left out of the section; half of these after another profile of the same kind
 	if strings.Contains(s, "=0 ") && r.Intn(3) == 0 {
 		s += " omit=1"
@@ -398,6 +402,47 @@ func c01Lazy(r *rand.Rand, n int) []string {
 	return out
 }
 
+// c01Huge: profiles of more than 2^31 (up to 10^13) operations — valid configurations (a rate of 10^7/s over an hour) that
+// cannot be drained here; drain=0 looks at Left() before the start (the count) and at the first operations only.
+func c01Huge(r *rand.Rand, n int) []string {
+	out := []string{
+		"kind=once times=2147483648 drain=0", "kind=once times=4294967301 drain=0", "kind=once times=3000000000 drain=0 enc=yaml",
+		constIn(3e9, 1e9) + " drain=0", constIn(2147483648.5, 1e9) + " drain=0", constIn(1e7, 3600e9) + " drain=0 dsp=str",
+		lineIn(0, 1e10, 1e9) + " drain=0", lineIn(6e9, 1, 1500e6) + " drain=0",
+		stepIn(1e9, 3e9, 1e9, 1e9) + " drain=0", stepIn(25e8, 3e9, 250000000, 2e9) + " drain=0 enc=list",
+	}
+	for i := 0; i < n; i++ {
+		d := c01Duration(r)
+		secs := float64(d) / 1e9
+		total := math.Ldexp(1, 31) * (1 + 4000*r.Float64()*r.Float64()) // 2^31 .. 8.6e12 operations
+		if r.Intn(4) == 0 {
+			total = math.Ldexp(1, 31+r.Intn(12)) + float64(r.Intn(3)) - 1
+		}
+		rate := total / secs
+		var c string
+		switch r.Intn(5) {
+		case 0:
+			c = fmt.Sprintf("kind=once times=%d", int64(total))
+		case 1:
+			c = lineIn(math.Floor(2*rate*r.Float64()), math.Floor(2*rate*r.Float64())+1, int64(d))
+		case 2:
+			st := int64(rate/3) + 1
+			c = stepIn(math.Floor(rate/3), math.Floor(rate/3)+float64(2*st), st, int64(d))
+		default:
+			c = constIn(math.Floor(rate)+float64(r.Intn(2))/2, int64(d))
+		}
+		c += " drain=0"
+		if r.Intn(3) == 0 {
+			c += " enc=" + []string{"int", "yaml", "list"}[r.Intn(3)]
+		}
+		if r.Intn(8) == 0 {
+			c += " fac=2"
+		}
+		out = append(out, c)
+	}
+	return out
+}
+
 func c01Gen(r *rand.Rand, tier string) []string {
 	n, nIll, nBorder := 4500, 1500, 200
 	budget := 300000.0
@@ -424,6 +469,18 @@ func c01Gen(r *rand.Rand, tier string) []string {
 			out = append(out, base+fmt.Sprintf(" conc=%d", 2+i%5))
 		}
 	}
+	// … and decoded into a schedule factory that is called several times
+	for i, base := range out[:56] {
+		if i%4 == 0 {
+			out = append(out, base+fmt.Sprintf(" fac=%d", 2+i%3)+[]string{"", " enc=list", " start=implicit", " conc=3"}[(i/4)%4])
+		}
+	}
+	out = append(out, "kind=once times=7 fac=3", "kind=once times=5 fac=2 enc=yamllist")
+	nHuge := 60
+	if tier == "thorough" {
+		nHuge = 1500
+	}
+	out = append(out, c01Huge(r, nHuge)...)
 	out = append(out, docCases...)
 	// operation indices beyond 2^24 (2·10^7 operations each)
 	out = append(out, constIn(20_000_000, 1e9)+" big=1", lineIn(0, 40_000_000, 1e9)+" big=1", constIn(33_554_433, 600_000_000)+" big=1 conc=4")
@@ -627,6 +684,15 @@ func c01SameNum(v interface{}, want float64) bool {
 //	enc=list           `rps: [section]`: the usual list notation, through the slice -> composite hook and NewComposite
 //	enc=yamllist       both
 func c01Decode(m map[string]string) (s core.Schedule, ok bool) {
+	s, _, ok = c01DecodeAs(m, false)
+	return
+}
+
+// c01DecodeAs: asFactory=false decodes the section into a `core.Schedule` field (plugin.New); asFactory=true decodes it
+// into a `func() (core.Schedule, error)` field — that is how the engine's instance pool takes its `rps` section
+// (engine.InstancePoolConfig.NewRPSSchedule; with rps-per-instance the factory is called once per instance) — and returns
+// the factory (plugin.NewFactory: the config struct is filled anew at every call).
+func c01DecodeAs(m map[string]string, asFactory bool) (s core.Schedule, f func() (core.Schedule, error), ok bool) {
 	importOnce.Do(func() { coreimport.Import(afero.NewMemMapFs()) })
 	atoi := func(k string) int64 {
 		v, err := strconv.ParseInt(m[k], 10, 64)
@@ -638,15 +704,9 @@ func c01Decode(m map[string]string) (s core.Schedule, ok bool) {
 	if ref := m["doc"]; ref != "" {
 		root, _, ok := c01DocSection(ref)
 		if !ok {
-			return nil, false
+			return nil, nil, false
 		}
-		var conf struct {
-			RPS core.Schedule `config:"rps"`
-		}
-		if err := config.DecodeAndValidate(root, &conf); err != nil || conf.RPS == nil {
-			return nil, false
-		}
-		return conf.RPS, true
+		return c01DecodeRoot(root, asFactory)
 	}
 	if m["warm"] == "1" {
 		// warm=1: another profile of the SAME kind, with every number different from this one's and no rate equal to zero,
@@ -792,16 +852,32 @@ func c01Decode(m map[string]string) (s core.Schedule, ok bool) {
 			root = map[string]interface{}{"rps": sec}
 		}
 	}
+	return c01DecodeRoot(root, asFactory)
+}
+
+func c01DecodeRoot(root map[string]interface{}, asFactory bool) (core.Schedule, func() (core.Schedule, error), bool) {
+	if asFactory {
+		var conf struct {
+			RPS func() (core.Schedule, error) `config:"rps"`
+		}
+		if err := config.DecodeAndValidate(root, &conf); err != nil {
+			return nil, nil, false
+		}
+		if conf.RPS == nil {
+			panic("decoded schedule factory is nil")
+		}
+		return nil, conf.RPS, true
+	}
 	var conf struct {
 		RPS core.Schedule `config:"rps"`
 	}
 	if err := config.DecodeAndValidate(root, &conf); err != nil {
-		return nil, false
+		return nil, nil, false
 	}
 	if conf.RPS == nil {
 		panic("decoded schedule is nil")
 	}
-	return conf.RPS, true
+	return conf.RPS, nil, true
 }
 
 // c01Drain is what one drained schedule showed.
@@ -1011,9 +1087,54 @@ func c01Run(input string) string {
 	// trials=K: the configuration is decoded and drained K times (a fresh schedule each time). What the Spec is shown is
 	// the first repetition that differs from the first one or shows an instant before the clock reading taken before
 	// any Next(); if there is none, the last repetition.
+	// fac=K: the section is decoded ONCE into a schedule factory (how the engine's instance pool takes `rps`), the
+	// factory is called K times (rps-per-instance: once per instance) and every schedule it returns is drained; each must
+	// be the whole configured profile, whatever was made or drained before it. Shown to the Spec: like trials.
+	newSched := func() (core.Schedule, bool) { return c01Decode(m) }
+	if fac, _ := strconv.Atoi(m["fac"]); fac > 0 {
+		if fac > 64 {
+			fac = 64
+		}
+		_, f, ok := c01DecodeAs(m, true)
+		if !ok {
+			return "REJECT"
+		}
+		newSched = func() (core.Schedule, bool) {
+			s, err := f()
+			if err == nil && s == nil {
+				panic("the schedule factory returned nil without an error")
+			}
+			return s, err == nil
+		}
+		if trials < fac {
+			trials = fac
+		}
+	}
+	if m["drain"] == "0" {
+		// drain=0: profiles far too large to drain (more than 2^31 operations): only Left() before the start and the first
+		// few operations are looked at
+		s, ok := newSched()
+		if !ok {
+			return "REJECT"
+		}
+		left0 := s.Left()
+		s.Start(t0)
+		var sb strings.Builder
+		for i := 0; i < 8 && i < left0; i++ {
+			tx, ok := s.Next()
+			if !ok {
+				break
+			}
+			if i > 0 {
+				sb.WriteByte(';')
+			}
+			fmt.Fprintf(&sb, "%d:%d", i, int64(tx.Sub(t0)))
+		}
+		return fmt.Sprintf("LEFTONLY left0=%d left1=%d toks=%s", left0, s.Left(), sb.String())
+	}
 	var d, ref c01Drain
 	for k := 0; k < trials; k++ {
-		s, ok := c01Decode(m)
+		s, ok := newSched()
 		if !ok {
 			return "REJECT"
 		}
@@ -1159,6 +1280,9 @@ func c01Class(in, obs string) string {
 	if obs == "REJECT" {
 		return "rejected/" + m["kind"]
 	}
+	if strings.HasPrefix(obs, "LEFTONLY ") {
+		return m["kind"] + "/more-than-2^31-operations"
+	}
 	o := drv.KV(obs)
 	if o["n"] == "0" || o["n"] == "" {
 		return ""
@@ -1185,6 +1309,8 @@ func c01Class(in, obs string) string {
 		}
 	}
 	switch {
+	case m["fac"] != "":
+		c += "+factory"
 	case m["start"] == "implicit" && m["conc"] != "" && m["inst"] == "1":
 		c += "+implicit-start-concurrent-perturbed"
 	case m["start"] == "implicit" && m["conc"] != "":
